@@ -259,6 +259,15 @@ CONTAINER_SCENARIOS = [
 WIRE_CLASS_REPS = {"varint": "int32", "fixed32": "fixed32", "fixed64": "fixed64", "len:string": "string", "len:bytes": "bytes"}
 
 
+def _is_payload_atom(k: Sym) -> bool:
+    """the truth of a payload size: len(..) / the size helper, or a sum of those added up by hand"""
+    if k[0] == "call" and dotted(k[1]) in ("len", "_len_preprocessed_single"):
+        return True
+    if k[0] == "acc" or (k[0] == "op" and k[1] == "+"):
+        return any(t[0] == "call" and dotted(t[1]) in ("len", "_len_preprocessed_single") for t in walk(k))
+    return False
+
+
 def _payload_atoms(paths_probe: List[Path]) -> List[Sym]:
     """atoms that test whether the encoded payload is non-empty (inside the inlined single-field helper)"""
     out = []
@@ -323,7 +332,7 @@ def rule_D2(ctx, rule: str = "D2", only: Optional[Set[str]] = None) -> None:
                 if p.outcome == "raise":
                     continue
                 # payload atoms (inside the helper): keep only paths that agree with the scenario's payload emptiness
-                pay = [k for k in p.valuation if k[0] == "call" and dotted(k[1]) in ("len", "_len_preprocessed_single")]
+                pay = [k for k in p.valuation if _is_payload_atom(k)]
                 if payload_empty is not None and any(p.valuation[k] == payload_empty for k in pay):
                     continue
                 if ename == "dump":
@@ -1266,6 +1275,16 @@ def _d6_loop(g, head):
     n_reads = 0
     for nd in body_nodes:
         reads = {x.id for x in own_nodes(nd.stmt) if isinstance(x, ast.Name) and isinstance(x.ctx, ast.Load)}
+        # names bound by a comprehension / lambda inside the statement are that scope's own variables, not the loop's locals
+        scoped = set()
+        for x in own_nodes(nd.stmt):
+            if isinstance(x, (ast.ListComp, ast.SetComp, ast.DictComp, ast.GeneratorExp)):
+                bound = {y.id for g_ in x.generators for y in ast.walk(g_.target) if isinstance(y, ast.Name)}
+                outside = {y.id for y in ast.walk(x.generators[0].iter) if isinstance(y, ast.Name)}
+                scoped |= bound - outside
+            elif isinstance(x, ast.Lambda):
+                scoped |= {a_.arg for a_ in x.args.args + x.args.kwonlyargs + x.args.posonlyargs}
+        reads -= scoped
         for v in sorted(reads & set(assigns)):
             if v in loop_targets or v in aug:
                 continue
